@@ -196,13 +196,33 @@ func abandonedReconnectLeavesState(c *Ctx, rule string) {
 func overlappingOpensShareOneRound(c *Ctx, rule string) {
 	p := c.P
 	n := 0
-	for _, fn := range p.SrcFuncs() {
-		if fn.Pkg == nil || fn.Pkg.Pkg.Name() != "sio" {
-			continue
+	// the open path: Manager.open and the helpers it calls (not the dial, not the round itself)
+	open := p.Fn("sio", "Manager.open")
+	seen := map[*ssa.Function]bool{}
+	var fns []*ssa.Function
+	var walk func(fn *ssa.Function, depth int)
+	walk = func(fn *ssa.Function, depth int) {
+		if seen[fn] || depth > 3 {
+			return
 		}
+		seen[fn] = true
+		fns = append(fns, fn)
+		for _, cs := range Calls(fn) {
+			sc := cs.Common().StaticCallee()
+			if sc == nil || !p.inModule(sc) || sc.Pkg == nil || sc.Pkg.Pkg.Name() != "sio" || cs.IsGo() {
+				continue
+			}
+			if regexpMustCompile(`\(\*sio\.Manager\)\.(connect|reconnect|cleanup|onError|onClose)`).MatchString(FuncName(sc)) {
+				continue
+			}
+			walk(sc, depth+1)
+		}
+	}
+	walk(open, 0)
+	for _, fn := range fns {
 		rounds := CallsTo(Calls(fn), `\(\*sio\.Manager\)\.reconnect`)
 		tests := CallsTo(Calls(fn), `\(\*sio\.backoff\)\.attempts`)
-		if len(rounds) == 0 || len(tests) == 0 || strings.HasSuffix(FuncName(fn), ".reconnect") {
+		if len(rounds) == 0 || len(tests) == 0 {
 			continue
 		}
 		li := LocksInherit(fn)
@@ -218,11 +238,15 @@ func overlappingOpensShareOneRound(c *Ctx, rule string) {
 				continue
 			}
 			n++
-			c.Ob(rule, strings.NewReplacer("(*", "", ")", "").Replace(FuncName(fn))+"/round-licensed-outside-connectMu", t.Pos(), li.HoldsAny(t.Instr, "m.connectMu"),
-				"the back-off counter is asked whether a reconnection round may start after the failed open, outside connectMu: an open that waited behind another open's whole round (which resets the counter when it gives up) starts a second round; held="+li.Held(t.Instr).String())
+			suffix := ""
+			if n > 1 {
+				suffix = fmt.Sprintf("#%d", n)
+			}
+			c.Ob(rule, "sio.Manager.open/round-licensed-outside-connectMu"+suffix, t.Pos(), li.HoldsAny(t.Instr, "m.connectMu"),
+				"the back-off counter is asked ("+FuncName(fn)+") whether a reconnection round may start after the failed open, outside connectMu: an open that waited behind another open's whole round (which resets the counter when it gives up) starts a second round; held="+li.Held(t.Instr).String())
 		}
 	}
 	if n == 0 {
-		c.Undecided("%s: no test of backoff.attempts() decides about a reconnection round any more", rule)
+		c.Undecided("%s: no test of backoff.attempts() on the open path decides about a reconnection round any more", rule)
 	}
 }
